@@ -10,7 +10,9 @@
    names are mapped through markup.attributes. *)
 From Coq Require Import String.
 From Emmet Require Import lib.Base lib.StrLit model.MarkupTokenizer model.MarkupParser model.MarkupConvert
-     model.MarkupResolve model.OutStream model.FormatHtml proofs.AttrProofs proofs.AttrParseProofs.
+     model.MarkupResolve model.OutStream model.FormatHtml proofs.AttrProofs proofs.AttrParseProofs
+     proofs.ParserSpine proofs.ParserGroups proofs.TextSpec proofs.AttrText proofs.AttrTextParse
+     proofs.AttrTextConvert proofs.AttrTextFlat.
 
 (* merging: for ALL attribute lists the code's loop (dictionary lookup + in-place update) computes
    [merge_spec]: every name once at its first position; class values joined by one space in written
@@ -86,9 +88,11 @@ Print Assumptions C03_attr_out_text.
    non-empty run of literal/number/field tokens; quoted bodies any tokens but the closing quote;
    expression bodies any tokens but expression brackets), separated by white space, between `[` and `]`,
    attribute_set returns exactly the written attributes in order and consumes through the `]`.
-   Missing: the character level (that the tokenizer produces such token runs, with `.`/`!` inside names
-   kept literal), the `#id` / `.class` shorthands of element(), and the stringification of the value
-   tokens by convert_attribute; these are covered by the correspondence and the verbatim oracle. *)
+   This token-level theorem stays as the building block (it also covers token runs the character-level
+   grammar below excludes: numbering / field tokens in names and values, arbitrary white space, bare
+   quoted attributes).  The character level, the `#id` / `.class` shorthands of element() and the
+   stringification by convert_attribute are proved in C03_element_attributes_text below; what is still
+   open for a full attr_parse_roundtrip is named there. *)
 Theorem C03_attr_parse_roundtrip_partial :
   forall (open : token) (lead : list token) (l : list (wattr * list token)) (close : token) (after : list token),
     is_bracket open (Some BAttr) (Some true) = true ->
@@ -98,6 +102,123 @@ Theorem C03_attr_parse_roundtrip_partial :
     ASOk (map (fun p => wparsed (fst p)) l) (length (open :: lead ++ render l) + 1).
 Proof. exact attribute_set_reads. Qed.
 Print Assumptions C03_attr_parse_roundtrip_partial.
+
+(* ---------------------------------------------------------------------------------------------------
+   CHARACTER LEVEL (proofs/AttrText*.v).  The written grammar, as data:
+     selem  = name + list of parts;   part = `#v` | `.v` | `[a1 a2 ... an]` (single spaces between);
+     sattr  = optional `!` (implied) + name + optional `.` (boolean) + value;
+     value  = nothing | `=` | `=v` | `='q'` / `="q"` | `={e}`.
+   Alphabets ([selem_ok]): element name and shorthand values are non-empty runs of name characters
+   (letters, digits, `_ - : !`); an attribute name is any non-empty run over the unquoted-safe alphabet
+   [asafe] = every character except  \ $ = white space quotes brackets  (so `. # > + ^ * / @ :` and
+   unicode are in; it neither ends in `.` nor starts with `!` unless the flag is written); an unquoted
+   value is a non-empty run over [asafe] plus parentheses that balance ([uq_ok]); a quoted value is ANY
+   text in which the quote itself, `$` and `\` occur only escaped by `\` ([qpayload]: brackets, braces,
+   operators, the other quote, white space, line breaks free); an expression value is any text whose
+   braces balance modulo escapes and whose `$` are escaped ([bal 0]).
+   [elem_text e] is the text, [written_mentions e] the list of mentions it denotes (SPEC, AttrTextConvert):
+   `#v` -> id=v raw, `.v` -> class=v raw, n -> no value, n= -> no value, n=v -> [v] raw,
+   n='q' -> [unescape q] single (n="q" double; nothing for an empty q), n={e} -> [unescape e] expression,
+   flags boolean / implied as written. *)
+
+(* (0) the tokenizer on the text of such an element yields exactly the layout [elem_toks] *)
+Theorem C03_element_tokens_text :
+  forall e : selem, selem_ok e -> tokenize (elem_text e) = TOk (elem_toks 0 e).
+Proof. exact tokenize_elem. Qed.
+Print Assumptions C03_element_tokens_text.
+
+(* (1) element_attributes_text.  For EVERY element of the grammar -- any number and order of `#id`,
+   `.class` and `[ ... ]` parts, any mix of value forms -- tokenize + parse + convert of its text gives
+   ONE node, named as written, without value and children, whose attribute list (before merging) is
+   exactly the written mentions in order: name, value, value type (raw / single / double / expression)
+   and boolean / implied flags.  ([jsx_ok]: under jsx a Capitalized name followed by `.Capitalized` is a
+   component path, so the name must not start with a capital there.)
+   Outside the stated grammar, hence not covered by this theorem (covered by the correspondence and the
+   oracle of harness/props/c03.py): `$` numbering / `${..}` fields in names and values, a backslash
+   outside quotes and braces, separators other than one space, bare quoted attributes `["x"]`, empty
+   shorthands (`a.`), doubled shorthands (`..x`), the jsx shorthand `.{e}`. *)
+Theorem C03_element_attributes_text :
+  forall (jsx : bool) (env : cenv) (max_repeat : option N) (e : selem),
+    selem_ok e -> jsx_ok jsx e -> ce_text env = WNone ->
+    parse_abbr jsx env max_repeat (elem_text e) =
+      Ok [ANode (Some (se_name e)) None None (attrs_opt (written_mentions e)) [] false].
+Proof. exact element_attributes_text. Qed.
+Print Assumptions C03_element_attributes_text.
+
+(* ... composed with C03_merge_attributes: after merging, the node carries [merge_spec] of the mentions *)
+Theorem C03_element_merged_text :
+  forall (rev_attrs : bool) (e : selem),
+    merge_attributes rev_attrs (an_attrs (elem_node e)) =
+      match written_mentions e with [] => None | m => Some (merge_spec rev_attrs [] m) end.
+Proof. exact element_merged_text. Qed.
+Print Assumptions C03_element_merged_text.
+
+(* (3) the tokens of such an element form a parser block in the sense of C01: element() consumes exactly
+   them before `>`, `+`, `^`, `)` or the end, and returns the written attributes -- so these elements
+   may stand wherever C01_parse_denote_partial (flat statements) and C01_parse_groups (groups, any
+   nesting) ask for [block_ok] / [gblock_ok] *)
+Theorem C03_element_is_gblock :
+  forall (jsx : bool) (pos : nat) (e : selem),
+    selem_ok e -> jsx_ok jsx e -> gblock_ok jsx (elem_toks pos e) (elem_leaf pos e).
+Proof. exact elem_gblock. Qed.
+Print Assumptions C03_element_is_gblock.
+
+Theorem C03_element_is_block :
+  forall (jsx : bool) (pos : nat) (e : selem),
+    selem_ok e -> jsx_ok jsx e -> block_ok jsx (elem_toks pos e) (elem_leaf pos e).
+Proof. exact elem_block. Qed.
+Print Assumptions C03_element_is_block.
+
+(* ... and the corollary at text level: a flat statement e1 op1 e2 ... en (op = `>`, `+`, `^`...) of such
+   elements tokenizes and parses; the parsed tree has the depth list the operators denote ([edenote]:
+   `>` one deeper, `+` same level, each `^` one up), and the element at every place converts to ONE
+   node carrying exactly the mentions written on it *)
+Theorem C03_statement_attributes_text :
+  forall (jsx : bool) (env : cenv) (xs : list (selem * sop)),
+    Forall (fun x => selem_ok (fst x) /\ jsx_ok jsx (fst x)) xs ->
+    exists toks els,
+      tokenize (stmt_text xs) = TOk toks /\ parse jsx toks = POk els /\
+      Forall2 (fun dl de => fst dl = fst de /\
+                            forall st, conv_stmt env (leaf_node (snd dl)) st = Ok ([elem_node (snd de)], st))
+              (preL 0 els) (edenote 0 xs).
+Proof. exact statement_attributes_text. Qed.
+Print Assumptions C03_statement_attributes_text.
+
+(* non-vacuity of the character-level theorems: a#x.y[!p. q= r=a*3/4>.# f=g(1) s='a \' ] (c)' t={ x{y} }].z *)
+Example C03_text_nonvacuous :
+  let e := mkSElem (S "a")
+             [PId (S "x"); PClass (S "y");
+              PSet [mkSAttr true (S "p") true SNone; mkSAttr false (S "q") false SEmpty;
+                    mkSAttr false (S "r") false (SUnq (S "a*3/4>.#")); mkSAttr false (S "f") false (SUnq (S "g(1)"));
+                    mkSAttr false (S "s") true (SQuo true (S "a \' ] (c)")); mkSAttr false (S "t") false (SBrace (S " x{y} "))];
+              PClass (S "z")] in
+  selem_ok e /\ jsx_ok false e /\
+  elem_text e = S "a#x.y[!p. q= r=a*3/4>.# f=g(1) s.='a \' ] (c)' t={ x{y} }].z" /\
+  written_mentions e =
+    [mkAAttr (Some (S "id")) (Some [VStr (S "x")]) VRaw false false false;
+     mkAAttr (Some (S "class")) (Some [VStr (S "y")]) VRaw false false false;
+     mkAAttr (Some (S "p")) None VRaw true true false;
+     mkAAttr (Some (S "q")) None VRaw false false false;
+     mkAAttr (Some (S "r")) (Some [VStr (S "a*3/4>.#")]) VRaw false false false;
+     mkAAttr (Some (S "f")) (Some [VStr (S "g(1)")]) VRaw false false false;
+     mkAAttr (Some (S "s")) (Some [VStr (S "a ' ] (c)")]) VSingle true false false;
+     mkAAttr (Some (S "t")) (Some [VStr (S " x{y} ")]) VExpr false false false;
+     mkAAttr (Some (S "class")) (Some [VStr (S "z")]) VRaw false false false].
+Proof.
+  cbv zeta. split; [|split; [left; reflexivity|split; vm_compute; reflexivity]].
+  split; [split; [discriminate|repeat constructor]|]. repeat constructor; try discriminate.
+Qed.
+
+(* ... and of the statement theorem: a.x>b[c=1]+d#e satisfies its hypothesis *)
+Example C03_statement_nonvacuous :
+  let xs := [(mkSElem (S "a") [PClass (S "x")], SChild);
+             (mkSElem (S "b") [PSet [mkSAttr false (S "c") false (SUnq (S "1"))]], SSibling);
+             (mkSElem (S "d") [PId (S "e")], SSibling)] in
+  Forall (fun x => selem_ok (fst x) /\ jsx_ok false (fst x)) xs /\ stmt_text xs = S "a.x>b[c=1]+d#e".
+Proof.
+  cbv zeta. split; [|vm_compute; reflexivity].
+  repeat constructor; try discriminate.
+Qed.
 
 (* non-vacuity: .x [b=1] .y [b=2] merges to class="x y" b=2 (b=1 under reverse), class first *)
 Example C03_nonvacuous :
